@@ -55,6 +55,9 @@ pub fn alphabet(first_ttl: u8, h: usize) -> Vec<Shape> {
     // shorter / longer rounds
     shapes.push(Shape { first_ttl, outs: vec![Out::C(5 * MS, 1, None, None)], largest_ttl: None });
     shapes.push(Shape { first_ttl, outs: vec![Out::A, Out::A, Out::A, Out::C(7 * MS, 1, None, None)], largest_ttl: None });
+    // carried target distance: published with path length 3 although nothing / only hop 1 answered
+    shapes.push(Shape { first_ttl, outs: vec![Out::A, Out::A, Out::A], largest_ttl: Some(first_ttl + 2) });
+    shapes.push(Shape { first_ttl, outs: vec![Out::C(3 * MS, 1, None, None), Out::A, Out::A], largest_ttl: Some(first_ttl + 2) });
     shapes
 }
 
